@@ -119,6 +119,8 @@ def build_pts(case, variant, dt):
             pt.set_mpo_tensor(r, t)
         if variant.get("caps", "computed") == "computed":
             pt.compute_caps()
+        elif variant.get("caps") == "none":
+            pass
         else:
             cap = np.eye(ed).reshape(ed * ed)
             pt.set_cap_tensor(0, np.array([1.0]))
